@@ -242,7 +242,7 @@ func (tp *TableParser) parseCell(cell tableCellXML) ParsedTableCell {
 
 	// Parse column span (gridSpan)
 	if props.GridSpan.Val != "" {
-		if span, err := strconv.Atoi(props.GridSpan.Val); err == nil && span > 0 {
+		if span, err := strconv.Atoi(props.GridSpan.Val); err == nil && span > 0 && span <= maxCellSpan {
 			parsed.ColSpan = span
 		}
 	}
@@ -324,6 +324,11 @@ func (tp *TableParser) parseCellParagraph(p paragraphXML) parsedParagraph {
 
 	return parsed
 }
+
+// maxCellSpan is the largest gridSpan accepted. The spans size the table grid;
+// a larger value than any real table has is treated like any other invalid
+// value and ignored.
+const maxCellSpan = 1024
 
 // processVerticalMerges calculates row spans for vertically merged cells.
 func (tp *TableParser) processVerticalMerges(table *ParsedTable) {
